@@ -113,6 +113,36 @@ def run(ctx) -> None:
     else:
         r1.ok("collection loop lies on every path from ray.wait to an exit of the wait loop")
 
+    # (a') the loop may only be left on evidence that everything was collected: the quantity tested by the exit condition must be computed
+    #      from what ray.wait returned (or from the set of collected results), never from the number that was merely requested
+    breaks = [b for b in ast.walk(loop) if isinstance(b, ast.Break) and enclosing(pm, b, (ast.While, ast.For)) is loop]
+    from ..sem import Sem as _SemX
+    LS_ = _SemX(idx, process)
+    for b in breaks:
+        tests = [n_ for t_, p_, n_ in LS_.conditions(b, resolve=False) if isinstance(n_, ast.AST) and any(x is n_ for x in ast.walk(loop))]
+        names_tested = {n.id for t in tests for n in ast.walk(t) if isinstance(n, ast.Name)}
+        evidence = False
+        why_not = []
+        for nm in sorted(names_tested):
+            ds = [d for d in du.reaching(nm, cfg.node(b)) if d.node in loop_nodes]
+            if not ds:
+                continue        # loop-invariant (e.g. the number of remotes)
+            for d in ds:
+                sl_, _, _ = du.backward_slice(d.value, d.node) if d.value is not None else ([], None, None)
+                dep = any(ready_name in names_in(e_) for e_ in sl_) or (d.value is not None and ready_name in names_in(d.value))
+                if dep:
+                    evidence = True
+                else:
+                    why_not.append(f"`{norm1(d.stmt, 70)}`")
+        r1.check(evidence and not why_not, "the loop is left only when the refs returned by ray.wait say that all remotes are ready", process, b,
+                 f"the exit test of the ray.wait loop depends on {', '.join(why_not) or 'nothing computed from the ray.wait result'}, which is not "
+                 f"computed from the list ray.wait returned: when ray.wait returns fewer refs than requested (timeout) the loop ends early "
+                 f"and the unfinished K-points are missing from the sum", stmt="wait-loop exit")
+    if not breaks and isinstance(loop, ast.While) and not (isinstance(loop.test, ast.Constant) and loop.test.value is True):
+        sl_, _, _ = du.backward_slice(loop.test, cfg.node(loop))
+        r1.check(any(ready_name in names_in(e_) for e_ in sl_), "the loop condition is computed from the ray.wait result", process, loop,
+                 "the ray.wait loop condition does not depend on what ray.wait returned", stmt="wait-loop condition")
+
     # (b) which indices are collected
     it_exprs, _, _ = du.backward_slice(coll.iter, cfg.node(coll))
     inv = None
@@ -230,64 +260,132 @@ def run(ctx) -> None:
         raise AnalysisError(f"process(): ray.get argument is not <list>[<loop index>]: {norm1(get)}")
     if garg.value.id != waited_list.id:
         r2.violation(process, get, f"results are fetched from `{garg.value.id}` but ray.wait watches `{waited_list.id}`")
-    # the remotes list is a comprehension over the K-point list
+    # K-point of remote i: the first argument of the `.remote(...)` call that creates element i of the waited list
+    from ..sem import Sem
+    import re as _re
+    PS2 = Sem(idx, process)
+    PS2.inline_helpers = False
+    # lists stay symbolic: K-points are compared as <list>[<index expression>]
+    LISTS = set(process.params) | {s_.targets[0].id for s_ in stmts(process.node) if isinstance(s_, ast.Assign) and len(s_.targets) == 1
+                                   and isinstance(s_.targets[0], ast.Name) and isinstance(s_.value, (ast.ListComp, ast.List))}
     rem_def = du.single_def(garg.value.id, cfg.node(loop))
-    src_list = None
-    if rem_def is not None and isinstance(rem_def.value, ast.ListComp) and len(rem_def.value.generators) == 1:
-        gen = rem_def.value.generators[0]
-        elt = rem_def.value.elt
-        if isinstance(gen.iter, ast.Name) and isinstance(elt, ast.Call) and call_name(elt).endswith(".remote") \
-                and elt.args and isinstance(gen.target, ast.Name) and is_name(elt.args[0], gen.target.id) \
-                and not gen.ifs:
-            src_list = gen.iter.id
-    if src_list is None:
-        raise AnalysisError("process(): remotes list is not `[f.remote(K, …) for K in <list>]`")
+    krem = None
+    if rem_def is not None and rem_def.value is not None:
+        PS2.keep_names = set(LISTS)
+        el = PS2.element(rem_def.value, rem_def.node)
+        PS2.keep_names = set()
+        if isinstance(el, ast.Call) and call_name(el).endswith(".remote") and el.args:
+            krem = el.args[0]
+    if krem is None:
+        raise AnalysisError("process(): cannot read which K-point element i of the remotes list is created from "
+                            "(expected a list of `f.remote(K_i, …)` calls built element by element)")
+
+    def canon_it(e: ast.AST, var: str) -> str:
+        """element expression with the abstract position replaced by `var`"""
+        return _re.sub(r"\bIT\d*(_\d+)?\b", var, norm(e))
     nested_ = nested_functions(process.node)
     modf = process.module.functions
 
-    def store_helper_calls(root):
+    def helper_node(name: str):
+        return nested_.get(name) or (modf[name].node if name in modf and name.startswith("_") else None)
+
+    def store_sites(root, loopvars):
+        """[(call node in process, receiving K-point expression in process's terms, stored value expression, helper name | None)]"""
         out_ = []
         for c_ in ast.walk(root):
-            if isinstance(c_, ast.Call) and isinstance(c_.func, ast.Name) and len(c_.args) >= 2 and (c_.func.id in nested_ or (c_.func.id in modf and c_.func.id.startswith("_"))):
-                hn = nested_.get(c_.func.id) or modf[c_.func.id].node
-                if any(isinstance(x, ast.Call) and isinstance(x.func, ast.Attribute) and x.func.attr == "set_result" for x in ast.walk(hn)):
-                    out_.append(c_)
+            if not isinstance(c_, ast.Call):
+                continue
+            if isinstance(c_.func, ast.Attribute) and c_.func.attr == "set_result" and len(c_.args) == 1:
+                PS2.keep_names = set(loopvars) | LISTS
+                rcv = PS2.resolve(c_.func.value, du.node_of_expr(c_))
+                val = PS2.resolve(c_.args[0], du.node_of_expr(c_))
+                PS2.keep_names = set()
+                out_.append((c_, rcv, val, None))
+            elif isinstance(c_.func, ast.Name) and helper_node(c_.func.id) is not None:
+                hn = helper_node(c_.func.id)
+                inner_sets = [x for x in ast.walk(hn) if isinstance(x, ast.Call) and isinstance(x.func, ast.Attribute) and x.func.attr == "set_result" and len(x.args) == 1]
+                if len(inner_sets) != 1:
+                    continue
+                hS = Sem(idx, hn)
+                hS.inline_helpers = False
+                hS._caller_done = True
+                params = [a_.arg for a_ in hn.args.args]
+                bind = {p_: a_ for p_, a_ in zip(params, c_.args)}
+                bind.update({k.arg: k.value for k in c_.keywords if k.arg})
+                at_h = hS.du.node_of_expr(inner_sets[0])
+                rcv_h = hS.resolve(inner_sets[0].func.value, at_h)
+                val_h = hS.resolve(inner_sets[0].args[0], at_h)
+                PS2.keep_names = set(loopvars) | LISTS
+                at_c = du.node_of_expr(c_)
+                rcv = PS2.resolve(PS2._subst(rcv_h, bind), at_c)
+                val = PS2.resolve(PS2._subst(val_h, bind), at_c)
+                PS2.keep_names = set()
+                out_.append((c_, rcv, val, c_.func.id))
         return out_
-    srs = store_helper_calls(coll)
+    srs = store_sites(coll, {ivar})
     if len(srs) != 1:
-        raise AnalysisError("process(): expected one call of the per-K store helper (K.set_result + weighted read) in the collection loop")
-    sr = srs[0]
-    helper_name = sr.func.id
-    karg, resarg = sr.args[0], sr.args[1]
-    kval = du.resolve_local(karg, du.node_of_expr(sr))
-    okpair = isinstance(kval, ast.Subscript) and is_name(kval.value, src_list) and is_name(kval.slice, ivar)
-    r2.check(okpair, f"K-point for remote i is {src_list}[i], the list the remotes were created from",
-             process, sr, f"the result of remote `{garg.value.id}[{ivar}]` (created from `{src_list}[{ivar}]`) is stored "
-             f"on `{norm1(kval)}` — a different K-point whenever the two lists differ (e.g. after a refinement step, "
+        raise AnalysisError(f"process(): expected one place in the collection loop where a fetched result is stored on a K-point (K.set_result, "
+                            f"directly or in a store helper), found {len(srs)}")
+    sr, rcv, val, helper_name = srs[0]
+    want_k = canon_it(PS2.simplify(krem, cfg.node(coll)), ivar)
+    got_k = norm(PS2.simplify(rcv, cfg.node(coll)))
+
+    def deep(e: ast.AST, at_: int, var: str) -> str:
+        """the same K-point expression with the local lists expanded to what they are built from (only parameters stay symbolic)"""
+        filtered = {s_.targets[0].id for s_ in stmts(process.node) if isinstance(s_, ast.Assign) and len(s_.targets) == 1 and isinstance(s_.targets[0], ast.Name)
+                    and isinstance(s_.value, ast.ListComp) and any(g_.ifs for g_ in s_.value.generators)}   # positions of a filtered list ≠ positions of its source
+        PS2.keep_names = set(process.params) | {var} | filtered
+        PS2.lenient_iter = True
+        try:
+            return canon_it(PS2.simplify(PS2.resolve(e, at_), at_), var)
+        finally:
+            PS2.keep_names = set()
+            PS2.lenient_iter = False
+    same_k = got_k == want_k or deep(rcv, cfg.node(coll), ivar) == deep(krem, cfg.node(coll), ivar)
+    r2.check(same_k, f"the result of remote i is stored on the K-point remote i was created from ({want_k})",
+             process, sr, f"the result of remote `{garg.value.id}[{ivar}]` (created from `{want_k}`) is stored "
+             f"on `{got_k}` — a different K-point whenever the two differ (e.g. after a refinement step, "
              f"when already-evaluated points are skipped)")
-    rval = du.resolve_local(resarg, du.node_of_expr(sr))
-    r2.check(rval is get or norm(rval) == norm(get), "stored value is the fetched result", process, sr,
-             f"value stored by set_result is `{norm1(rval)}`, not the fetched `{norm1(get)}`")
+    r2.check(norm(val) == norm(get) or norm(val) == norm(PS2.resolve(get, du.node_of_expr(get))), "stored value is the fetched result", process, sr,
+             f"value stored by set_result is `{norm1(val)}`, not the fetched `{norm1(get)}`")
     # serial arm
-    ser_loops = [s for s in stmts(process.node) if isinstance(s, ast.For) and not in_body([loop], s)
-                 and store_helper_calls(s)]
+    ser_loops = [s for s in stmts(process.node) if isinstance(s, ast.For) and not in_body([loop], s) and s is not loop
+                 and store_sites(s, set())]
     if len(ser_loops) != 1:
         raise AnalysisError("process(): serial evaluation loop not found")
     ser = ser_loops[0]
     r2.instance(f"{process.short}: serial arm")
-    ssr = store_helper_calls(ser)[0]
-    kname = ssr.args[0]
-    rv = du.resolve_local(ssr.args[1], du.node_of_expr(ssr))
-    okser = isinstance(rv, ast.Call) and rv.args and same(rv.args[0], kname) and isinstance(kname, ast.Name) \
-        and kname.id in names_in(ser.target)
+    lvars = {n.id for n in ast.walk(ser.target) if isinstance(n, ast.Name)}
+    ssites = store_sites(ser, lvars)
+    ssr, srcv, sval, _hn = ssites[0]
+    okser = isinstance(sval, ast.Call) and sval.args and norm(sval.args[0]) == norm(srcv) and not call_name(sval).endswith(".remote")
     r2.check(okser, "serial arm evaluates and stores the same loop K-point", process, ssr,
-             f"serial arm stores `{norm1(rv)}` on `{norm1(kname)}`")
-    # iterated list: same list as the remotes were created from
-    it = ser.iter
-    if isinstance(it, ast.Call) and call_name(it) == "enumerate":
-        it = it.args[0]
-    r2.check(is_name(it, src_list), "serial and parallel arms evaluate the same K-point list", process, ser,
-             f"serial arm iterates `{norm1(it)}` but the parallel arm evaluates `{src_list}`", )
+             f"serial arm stores `{norm1(sval)}` on `{norm1(srcv)}`")
+    # the K-points visited by the serial loop are those the remotes are created from
+    # element of the serial loop: the loop's element variable stands for <iterated list>[i]
+    it_s, tg_s = ser.iter, ser.target
+    if isinstance(it_s, ast.Call) and call_name(it_s) == "enumerate" and it_s.args and isinstance(tg_s, ast.Tuple) and len(tg_s.elts) == 2:
+        it_s, tg_s = it_s.args[0], tg_s.elts[1]
+    if not isinstance(tg_s, ast.Name):
+        raise AnalysisError(f"process(): serial loop target `{norm1(ser.target)}` not understood")
+    elem_s = PS2._subst(srcv, {tg_s.id: ast.Subscript(value=it_s, slice=ast.Name(id="IT", ctx=ast.Load()), ctx=ast.Load())})
+    PS2.keep_names = set(LISTS) | {"IT"}
+    ser_elem = canon_it(PS2.simplify(PS2.resolve(elem_s, cfg.node(ser)), cfg.node(ser)), "i")
+    PS2.keep_names = set()
+    if ser_elem != canon_it(PS2.simplify(krem, cfg.node(ser)), "i"):
+        # compare with the local lists expanded
+        filtered_ = {s_.targets[0].id for s_ in stmts(process.node) if isinstance(s_, ast.Assign) and len(s_.targets) == 1 and isinstance(s_.targets[0], ast.Name)
+                     and isinstance(s_.value, ast.ListComp) and any(g_.ifs for g_ in s_.value.generators)}
+        PS2.keep_names = set(process.params) | {"IT"} | filtered_
+        PS2.lenient_iter = True
+        d1 = canon_it(PS2.simplify(PS2.resolve(elem_s, cfg.node(ser)), cfg.node(ser)), "i")
+        d2 = canon_it(PS2.simplify(PS2.resolve(krem, cfg.node(ser)), cfg.node(ser)), "i")
+        PS2.keep_names = set()
+        PS2.lenient_iter = False
+        if d1 == d2:
+            ser_elem = canon_it(PS2.simplify(krem, cfg.node(ser)), "i")
+    r2.check(ser_elem == canon_it(PS2.simplify(krem, cfg.node(ser)), "i"), "serial and parallel arms evaluate the same K-points", process, ser,
+             f"serial arm evaluates `{ser_elem}` but the parallel arm `{canon_it(krem, 'i')}`", )
     # sibling accumulation
     acc = []
     for c in (sr, ssr):
@@ -311,7 +409,8 @@ def run(ctx) -> None:
         raise AnalysisError("process(): per-K store helper not found")
     r4.instance(f"{process.short}.{helper_name}")
     icfg, idu, ipm = fctx(inner)
-    kp = inner.args.args[0].arg
+    st_all = [c for c in method_calls(inner, "set_result") if isinstance(c.func.value, ast.Name)]
+    kp = st_all[0].func.value.id if len(st_all) == 1 else inner.args.args[0].arg
     st_calls = [c for c in method_calls(inner, "set_result") if is_name(c.func.value, kp)]
     rf_calls = [c for c in method_calls(inner, "get_result_factor") if is_name(c.func.value, kp)]
     if len(st_calls) != 1 or len(rf_calls) != 1:
@@ -482,6 +581,12 @@ def check_reorder(ctx, rid: str) -> None:
 from ..selftest import V  # noqa: E402
 
 SELFTEST = [
+    V("exit counter advanced by the requested number (seeded C12-m4)", RG,
+      "            remotes_calculated, _ = ray.wait(\n                remotes, num_returns=min(num_remotes_calculated + nstep_print, num_remotes),\n                timeout=60)\n\n            num_remotes_calculated = len(remotes_calculated)\n",
+      "            num_remotes_calculated = min(num_remotes_calculated + nstep_print, num_remotes)\n            remotes_calculated, _ = ray.wait(remotes, num_returns=num_remotes_calculated, timeout=60)\n\n",
+      "fire", "R12.1"),
+    V("result stored on the K-point with the remote's index in another list", RG, "                Kp = dK_list[ir]\n", "                Kp = K_list[ir]\n", "fire", "R12.2"),
+    V("neutral: K-point picked through the index list", RG, "                Kp = dK_list[ir]\n", "                ik_ = selK[ir]\n                Kp = K_list[ik_]\n", "silent"),
     V("collected set overwritten (the original defect)", RG,
       "remotes_calculated_old = remotes_calculated_old | remotes_calculated_bool",
       "remotes_calculated_old = remotes_calculated_bool", "fire", "R12.1"),
